@@ -543,7 +543,9 @@ func c13ContendedAcks(ev *vlib.Evidence, idx int) {
 	reg := store.NodeID("reg")
 	versions := 15 + r.Intn(25)
 	regNode := func(v int) store.Node {
-		return store.Node{ID: reg, Kind: fmt.Sprintf("kind-v%d", v), URI: fmt.Sprintf("enode://reg@192.0.2.7:%d", 30000+v), IsHost: v%2 == 0, Payout: store.Account(fmt.Sprintf("payout-v%d", v)), LastSeen: time.Now()}
+		n := store.Node{ID: reg, Kind: fmt.Sprintf("kind-v%d", v), URI: fmt.Sprintf("enode://reg@192.0.2.7:%d", 30000+v), IsHost: v%2 == 0, LastSeen: time.Now()}
+		vlib.SetPayout(&n, fmt.Sprintf("payout-v%d", v))
+		return n
 	}
 	s.SetNode(regNode(0))
 	var stop int32
@@ -585,8 +587,8 @@ func c13ContendedAcks(ev *vlib.Evidence, idx int) {
 		ev.Violate("contended:registered-node-missing-after-reopen", map[string]interface{}{"err": err.Error()})
 	} else {
 		want := regNode(lastAcked)
-		if got.Kind != want.Kind || got.URI != want.URI || got.IsHost != want.IsHost || got.Payout != want.Payout {
-			ev.Violate("contended:last-acknowledged-registration-not-on-disk", map[string]interface{}{"last_acknowledged_version": lastAcked, "on_disk_kind": got.Kind, "on_disk_uri": got.URI, "on_disk_payout": string(got.Payout), "keepalives": atomic.LoadInt64(&keepalives)})
+		if got.Kind != want.Kind || got.URI != want.URI || got.IsHost != want.IsHost || vlib.PayoutString(got) != vlib.PayoutString(&want) {
+			ev.Violate("contended:last-acknowledged-registration-not-on-disk", map[string]interface{}{"last_acknowledged_version": lastAcked, "on_disk_kind": got.Kind, "on_disk_uri": got.URI, "on_disk_payout": vlib.PayoutString(got), "keepalives": atomic.LoadInt64(&keepalives)})
 		}
 	}
 	nb, _ := s2.GetNodeBalance(node)
@@ -788,7 +790,7 @@ func diffMaps(a, b map[string]string, ignore func(string) bool) []string {
 
 func TestC13(t *testing.T) {
 	ev := vlib.NewEvidence("C13", "fault_enumeration",
-		"(1) model-checked store histories on an on-disk badger store opened exactly like pool.go (DefaultOptions(dir)) with Close/Open inserted every 1-3 operations; (2) kill cycles: a child process runs a seeded 30-operation stream (nodes, balances, links, peers, nonces) logging start/ack of every operation and is SIGKILLed after a PRNG-chosen number of acknowledgements plus a sub-millisecond delay; the directory is reopened and the full observable state (nodes, balances, links, peers, stats, replay of accepted nonces) must equal the model after the acknowledged prefix, or prefix+1 when an operation was in flight; thorough: kill points enumerated at value-log write boundaries with strace fault injection; (3) readers polling Stats and node balances while link operations migrate trial balances must always see the same ledger total and never less than a node's own credit; (3b) 8-24 writers hammering one node and one wallet balance of an on-disk store: every acknowledged add is present after close/reopen, and a node re-registering while its keep-alives race has its last acknowledged registration on disk; (3c) the built pool binary with --store=persist, fed signed registrations, wallet links and keep-alives over HTTP, SIGKILLed or interrupted and restarted on the same data directory: links and registrations are still there and the byte-identical copy of every accepted request is refused; (4) format matrix: databases rewritten to version 0/1/current/current+1 with planted nonce keys must migrate to current with every data key byte-identical, refuse and not touch a newer format, and not change on reopen; non-trivial = kill after >=1 acknowledged operation / history with >=1 reopen; distinct = case descriptors")
+		"(1) model-checked store histories on an on-disk badger store opened exactly like pool.go (DefaultOptions(dir)) with Close/Open inserted every 1-3 operations; (2) kill cycles: a child process runs a seeded 30-operation stream (nodes, balances, links, peers, nonces) logging start/ack of every operation and is SIGKILLed after a PRNG-chosen number of acknowledgements plus a sub-millisecond delay; the directory is reopened and the full observable state (nodes, balances, links, peers, stats, replay of accepted nonces) must equal the model after the acknowledged prefix, or prefix+1 when an operation was in flight; thorough: kill points enumerated at value-log write boundaries with strace fault injection; (3) readers polling Stats and node balances while link operations migrate trial balances must always see the same ledger total and never less than a node's own credit; (3b) 8-24 writers hammering one node and one wallet balance of an on-disk store: every acknowledged add is present after close/reopen, and a node re-registering while its keep-alives race has its last acknowledged registration on disk; (3c) the built pool binary with --store=persist, fed signed registrations, wallet links and keep-alives over HTTP, SIGKILLed or interrupted and restarted on the same data directory: links and registrations are still there and the byte-identical copy of every accepted request is refused; (3d) committed golden data directories (formats 2, 1, 0; production-style ids) written by an earlier tree are opened twice by the tree under check and must read back exactly as recorded; (4) format matrix: databases rewritten to version 0/1/current/current+1 with planted nonce keys must migrate to current with every data key byte-identical, refuse and not touch a newer format, and not change on reopen; non-trivial = kill after >=1 acknowledged operation / history with >=1 reopen; distinct = case descriptors")
 	ev.Assume("only process kill can be produced here, not power loss; kills are armed after Open returned")
 	for i := 0; i < vlib.Scale(25, 400); i++ {
 		c13ReopenHistory(ev, i)
@@ -802,6 +804,7 @@ func TestC13(t *testing.T) {
 	parallelCases(vlib.Scale(8, 100), 4, func(i int) { c13Readers(ev, i) })
 	parallelCases(vlib.Scale(6, 100), 3, func(i int) { c13ContendedAcks(ev, i) })
 	parallelCases(vlib.Scale(6, 80), 3, func(i int) { c13Binary(ev, i) })
+	c13Fixtures(ev)
 	for i := 0; i < vlib.Scale(4, 40); i++ {
 		c13Migration(ev, i)
 	}
